@@ -51,6 +51,7 @@ class Gen:
         self.canary = None       # None | 'entry' | 'exit'  (vacuity guard variants, see vrun.run_canaries)
         self.fn_props = {}
         self.loop_counts = {}
+        self.dropped_loop_sections = []
         self.syntactic = []      # census obligations: (fn, name, ok, detail, props)
 
     # ------------------------------------------------------------------
@@ -361,7 +362,9 @@ class Gen:
         # N6: name the ghost iterator of a `for` loop where the contract asks for it
         for sec in sections:
             if sec['sec'] == 'loop' and sec.get('opts', {}).get('iter'):
-                text = self.n6_name_for_iter(text, sec['k'], sec['opts']['iter'], rel, qual)
+                lps = rsx.fn_loops(text)
+                if 1 <= sec['k'] <= len(lps) and lps[sec['k'] - 1]['kw'] == 'for':
+                    text = self.n6_name_for_iter(text, sec['k'], sec['opts']['iter'], rel, qual)
         masked, _ = rsx.mask(text)
         fn_kw = re.search(r'\bfn\b', masked).start()
         body_open = rsx.first_open_brace(masked, fn_kw)
@@ -395,7 +398,10 @@ class Gen:
             elif kind in ('loop', 'loopbody'):
                 k = sec['k']
                 if k < 1 or k > len(loops):
-                    raise rsx.LostAnchor('%s: %s has %d loops, contract names loop %d' % (rel, qual, len(loops), k))
+                    # the function no longer has this loop: its loop clauses are dropped (recorded), the function's own
+                    # contract is still checked against the new body - a body that needs the loop fails its ensures
+                    self.dropped_loop_sections.append('%s: %s has %d loop(s), contract names loop %d' % (rel, qual, len(loops), k))
+                    continue
                 off = loops[k - 1]['open'] + (1 if kind == 'loopbody' else 0)
             elif kind == 'tail':
                 off = rsx.fn_tail_offset(text)
